@@ -98,6 +98,15 @@ def gen_cases(seed, tier):
     cases.append(dict(id="e_d5b", stores=["plain"], variant_order=["A", "B"], sort=None, indexes=[], finds=[],
                       props=[dict(variant=None, kind="u", name="c")],
                       entries=[dict(variant="A", values={"c": ("u", 1)}), dict(variant="B", values={"c": ("u", 300)})]))
+    # value stores with more distinct values than a block-wise search window (around 256, 1024, 4096), followed by
+    # duplicates of recent and of old values: every array must still read back as itself
+    for kind, nvals in ([("indexed", 1100), ("plain", 300)] if tier == "quick" else [("indexed", 1100), ("indexed", 4200), ("plain", 1100), ("indexed", 260)]):
+        props = [dict(variant=None, kind="a", name="arr", fixed=0, store=0), dict(variant=None, kind="u", name="n")]
+        vals = ["x:" + ("%06d" % j).encode().hex() for j in range(nvals)]
+        seq = vals + [vals[-1], vals[-10], vals[-90], vals[nvals // 2], vals[0], vals[3], vals[-1023 if nvals > 1023 else 1], vals[-1]]
+        ents = [dict(variant=None, values={"arr": ("a", v), "n": ("u", j)}) for j, v in enumerate(seq)]
+        cases.append(dict(id="vs_%s_%d" % (kind, nvals), stores=[kind], props=props, entries=ents, indexes=[("all", 0, len(ents))],
+                          finds=[], variant_order=[], sort=None))
     # representation limits (D10, D11): counts stored in one byte. Beyond 255 the creation must fail;
     # whatever is created must read back exactly ("never stored altered")
     def flat(cid, nprops, nstores):
